@@ -168,6 +168,13 @@ def gen_case(world, tier, prop):
       kwargs[n] = g.value()
   if sv.vk and rng.random() < 0.3:
     kwargs['free1'] = g.value()
+  if sv.vk and (sv.po or sv.va) and rng.random() < 0.15:
+    # legal in Python: a keyword named like a positional-only / *args parameter
+    # lands in **kwargs (f(1, a=2) for def f(a, /, **kw))
+    cands = [n for n in sv.po if sv.index_of[n] < npos] + (
+        [sv.va] if sv.va and npos >= sv.P else [])
+    if cands:
+      kwargs[rng.choice(cands)] = g.value()
   init = {'btype': btype, 'fn': 'f0', 'args': args, 'kwargs': kwargs}
   m = mk({'node': init})
   max_ops = 25 if tier == 'thorough' else 14
